@@ -71,6 +71,40 @@ func roundTrip(s *jsonschema.Schema, insts []json.RawMessage) map[string]any {
 	return res
 }
 
+// escapeStrings rewrites JSON text so that every ASCII letter or digit inside a string literal becomes \u00XX.
+func escapeStrings(txt []byte) []byte {
+	var out bytes.Buffer
+	in := false
+	for i := 0; i < len(txt); i++ {
+		c := txt[i]
+		switch {
+		case !in:
+			if c == '"' {
+				in = true
+			}
+			out.WriteByte(c)
+		case c == '\\':
+			out.WriteByte(c)
+			if i+1 < len(txt) {
+				i++
+				out.WriteByte(txt[i])
+				if txt[i] == 'u' && i+4 < len(txt) {
+					out.Write(txt[i+1 : i+5])
+					i += 4
+				}
+			}
+		case c == '"':
+			in = false
+			out.WriteByte(c)
+		case (c >= 'a' && c <= 'z') || (c >= 'A' && c <= 'Z') || (c >= '0' && c <= '9'):
+			fmt.Fprintf(&out, "\\u%04x", c)
+		default:
+			out.WriteByte(c)
+		}
+	}
+	return out.Bytes()
+}
+
 func init() {
 	register("fields", func(args json.RawMessage) (any, error) {
 		return map[string]any{"outcome": "ok", "fields": fieldTable()}, nil
@@ -114,7 +148,29 @@ func init() {
 		if err := json.Unmarshal(txt, s); err != nil {
 			return map[string]any{"outcome": "unmarshal-error", "detail": err.Error()}, nil
 		}
-		return roundTrip(s, a.Insts), nil
+		res := roundTrip(s, a.Insts)
+		// the same document with every letter and digit inside its strings written as a \uXXXX escape is the same JSON value:
+		// Unmarshal must read the same schema from it
+		esc := escapeStrings(txt)
+		s2 := new(jsonschema.Schema)
+		if err := json.Unmarshal(esc, s2); err != nil {
+			res["escape_equal"] = false
+			res["escape_detail"] = "escaped spelling refused: " + err.Error()
+		} else {
+			b1, e1 := json.Marshal(s)
+			b2, e2 := json.Marshal(s2)
+			// compared as JSON values (Default is a RawMessage and keeps the spelling it was given)
+			var v1, v2 any
+			d1 := json.NewDecoder(bytes.NewReader(b1))
+			d1.UseNumber()
+			d2 := json.NewDecoder(bytes.NewReader(b2))
+			d2.UseNumber()
+			res["escape_equal"] = (e1 != nil && e2 != nil) || (e1 == nil && e2 == nil && d1.Decode(&v1) == nil && d2.Decode(&v2) == nil && reflect.DeepEqual(v1, v2))
+			if res["escape_equal"] == false {
+				res["escape_detail"] = string(b2)
+			}
+		}
+		return res, nil
 	})
 	// clone {desc}: CloneSchemas and its observable guarantees
 	register("clone", func(args json.RawMessage) (any, error) {
